@@ -68,7 +68,9 @@ func trustWrong(n, sigs int, trusted bool) string {
 func init() {
 	checks["C19"] = func(args []string) int {
 		rep := ev.NewReport("C19", "model_checking")
-		th := ev.Tier() == "thorough"
+		// both tiers run the full parameters (constructor agreement up to n = 6000, set sequences to depth 8, 97 DAGs for the
+		// vote count): half a minute
+		th := true
 		maxN := 100000
 		viol := func(key, what string, replay map[string]interface{}) {
 			rep.Violations = append(rep.Violations, ev.Violation{Property: "C19", Key: key, What: what, Replay: replay})
